@@ -3,3 +3,4 @@ MUTANTS=[
  ("C07","S4-cache-keeps-rejected-slice (seeded/C07-c) on C07",dict(patch="/verif/seeded/C07-c/patch.diff")),
 ]
 MUTANTS.append(("C14","S5-receipts-null-result-accepted (seeded/C14-d) on C14",dict(patch="/verif/seeded/C14-d/patch.diff")))
+MUTANTS.append(("C14","S6-required-field-skipped-when-column-declared (seeded/C14-e) on C14",dict(patch="/verif/seeded/C14-e/patch.diff")))
